@@ -24,7 +24,7 @@ def one(mid):
         demo = "/venv/bin/python out/x/demo.py"
         src = open(os.path.join(d, 'demo.py')).read().replace('/tmp/wt/fake_rpy2', os.path.join(HERE, 'fake_rpy2')).replace('/tmp/wt3/fake_rpy2', os.path.join(HERE, 'fake_rpy2'))
         import re
-        src = re.sub(r'/tmp/wt3/C\d\d', wt, src)      # round-3 demos name their author's scratch worktree
+        src = re.sub(r'/tmp/wt4/C\d\d[ab]', wt, re.sub(r'/tmp/wt3/C\d\d', wt, src))      # round-3 demos name their author's scratch worktree
         open(os.path.join(wt, 'out', 'x', 'demo.py'), 'w').write(src)
         rc0, o0 = sh(demo, wt, env=env)
         out['demo_clean_rc'] = rc0
